@@ -256,8 +256,9 @@ func (c *Client) connect() error {
 			for {
 				val, err := stanza.NextPacket(c.transport.GetDecoder())
 				if err != nil {
+					// The session was never established: the failure is reported by the error returned below,
+					// not by a Disconnected event (which would start a second reconnection loop)
 					c.ErrorHandler(err)
-					c.disconnected(state)
 					return
 				}
 				switch val.(type) {
